@@ -40,7 +40,19 @@ func init() {
 			var res []core.Case
 			for i := 0; i < env.Pick(3000, 40000); i++ {
 				k := 1 + r.Intn(6)
-				f := gen.RandFormula(r, k, 1+r.Intn(4), 1, 2, 6)
+				maxU := 6
+				if r.Intn(4) == 0 { // larger exactly-one groups (the grid encoding changes shape with the size)
+					k = 7 + r.Intn(3)
+					maxU = k
+				}
+				f := gen.RandFormula(r, k, 1+r.Intn(4), 1, 2, maxU)
+				if k >= 7 && r.Intn(2) == 0 { // a large group constrained by a few literals
+					kids := []gen.M{gen.UniqAll(r, k)}
+					for j := 0; j < 1+r.Intn(3); j++ {
+						kids = append(kids, gen.RandFormula(r, k, r.Intn(2), 1, 0, 0))
+					}
+					f = gen.M{"op": "and", "i": 0, "kids": kids}
+				}
 				res = append(res, gen.M{"drv": "bf", "k": k, "names": gen.Names(k), "hasF": true, "f": f, "ev": []gen.M{gen.Op("solve")}})
 			}
 			return res
@@ -66,7 +78,7 @@ func init() {
 			}
 			return nt
 		},
-		Rule:    "cases: formula trees of depth <=4 over <=6 names built through the public constructors (Var, True, False, Not, n-ary And/Or of arity 0..3, Implies, Eq, Xor, Unique groups of size 1..6 at every polarity) solved by bf.Solve; non-trivial = the formula is not a single leaf",
+		Rule:    "cases: formula trees of depth <=4 over <=9 names built through the public constructors (Var, True, False, Not, n-ary And/Or of arity 0..3, Implies, Eq, Xor, Unique groups of size 1..9 at every polarity, large groups conjoined with literals) solved by bf.Solve; non-trivial = the formula is not a single leaf",
 		Require: []string{"op.not", "op.and", "op.or", "op.imp", "op.eq", "op.xor", "op.uniq", "uniq.size>=5", "uniq.size<5", "reply.nil", "reply.model"},
 	})
 
@@ -78,7 +90,15 @@ func init() {
 			var res []core.Case
 			for i := 0; i < env.Pick(2500, 30000); i++ {
 				k := 1 + r.Intn(6)
-				f := gen.RandFormula(r, k, 1+r.Intn(3), 1, 1, 6)
+				maxU := 6
+				if r.Intn(6) == 0 {
+					k = 7 + r.Intn(2)
+					maxU = k
+				}
+				f := gen.RandFormula(r, k, 1+r.Intn(3), 1, 1, maxU)
+				if k >= 7 && r.Intn(2) == 0 {
+					f = gen.M{"op": "and", "i": 0, "kids": []gen.M{gen.UniqAll(r, k), gen.RandFormula(r, k, 1, 1, 0, 0)}}
+				}
 				res = append(res, gen.M{"drv": "bf", "k": k, "names": gen.Names(k), "hasF": true, "f": f, "ev": []gen.M{gen.Op("dimacs")}})
 			}
 			return res
